@@ -6,5 +6,6 @@ cd "$(dirname "$0")/.."
 for c in C01 C02 C03 C04 C05 C06 C07 C08 C09 C10 C11 C12 C13 C14 C15 C16 C17 C18 C19 C20; do
   ./check $c --tier $TIER > $OUT/$c.out 2>&1; rc=$?
   echo "rc=$rc $(grep -E "^$c tier" $OUT/$c.out | tail -1) known=$(grep -c KNOWN-FINDING $OUT/$c.out)"
+  if [ $rc -ne 0 ]; then tail -40 $OUT/$c.out | cut -c1-600; fi
 done
 rm -rf "$OUT"
